@@ -70,10 +70,29 @@ def gen(rng, tier):
         ops = [(0,), (1, 0, entries[0][0] if entries else 0, 5), (3, 0), (4, 0, 0, 1), (6, a0, 1, 7), (7, a0, 2), (9, a0, 4), (8,), (0,)]
         yield tab.line(ops)
 
+def defaults_grid(rng):
+    """well-formed layouts only: every register type x constraint kind x {area with write callback, without one, skip-defaults,
+    callback-backed} x {default satisfies the constraint, violates it, is an undecodable float}: whether the default is loaded - and
+    therefore validated - decides the outcome"""
+    for t in range(8):
+        for ck_kind in (0, 1, 2, 3, 4, 5):
+            for (flags, kind) in ((3, MEM), (1, MEM_NOWRITE), (3, MEM_NOWRITE), (7, MEM), (3, CUSTOM), (2, MEM), (7, MEM_NOWRITE)):
+                ck = rand_check(rng, t, ck_kind)
+                good = acceptable_default(rng, t, ck)
+                cands = [good] + [v for v in boundary_values(rng, t, ck, 0)][:6]
+                if t >= 6:
+                    cands += [(F32 if t == 6 else F64)[9], (F32 if t == 6 else F64)[7], (F32 if t == 6 else F64)[2]]   # NaN, inf, subnormal
+                for d in cands:
+                    size = TSIZE[t] + 1
+                    entries = [(t, d, 8, ck[0], ck[1], ck[2]), (0, 3, 8 + TSIZE[t], 0, 0, 0)]
+                    tab = Table(rng.randrange(2), [(8, size, flags, kind)], entries, [rng.randrange(65536) for _ in range(size)])
+                    yield tab.line([(0,), (3, 0), (3, 1), (1, 0, t, good), (3, 0)])
+
 # re-initialisation of an edited table (appended by the generator below)
 _gen0 = gen
 def gen(rng, tier):
     yield from _gen0(rng, tier)
+    yield from defaults_grid(rng)
     yield from reinit_histories(rng, 400 if tier == 'thorough' else 60)
 
 def nontrivial(c):
